@@ -156,4 +156,143 @@ theorem Cong.eq_of_lt {m a b : Nat} (hm : m ≠ 0) (h : Cong m a b)
     have h2 := Nat.xor_lt_two_pow ha hb
     omega
 
+/-! ## Part 2: `modulo` is polynomial remainder -/
+
+/-- Degree of a polynomial given as a natural number (`-1` for the zero polynomial). -/
+def pdeg (n : Nat) : Int := if n = 0 then -1 else (n.log2 : Int)
+
+theorem toNat_eq_zero_iff (p : UInt64) : p.toNat = 0 ↔ p = 0 := by
+  rw [← UInt64.toNat_zero, UInt64.toNat_inj]
+
+theorem degree_eq (p : UInt64) : degree p = pdeg p.toNat := by
+  unfold degree pdeg
+  by_cases h : p = 0
+  · simp [h]
+  · have : p.toNat ≠ 0 := fun h' => h ((toNat_eq_zero_iff p).mp h')
+    simp [h, this]
+
+theorem pdeg_lt_iff {n d : Nat} : pdeg n < (d : Int) ↔ n < 2 ^ d := by
+  unfold pdeg
+  by_cases h : n = 0
+  · subst h
+    have := Nat.two_pow_pos d
+    simp only [if_true]
+    constructor
+    · intro _; exact this
+    · intro _; omega
+  · simp only [h, if_false]
+    rw [← Nat.log2_lt h]; omega
+
+theorem lt_two_pow_of_testBit_false {x L : Nat} (h1 : x < 2 ^ (L + 1)) (h2 : x.testBit L = false) :
+    x < 2 ^ L := by
+  apply Nat.lt_pow_two_of_testBit
+  intro i hi
+  by_cases h : i = L
+  · subst h; exact h2
+  · apply Nat.testBit_lt_two_pow
+    exact Nat.lt_of_lt_of_le h1 (Nat.pow_le_pow_right (by omega) (by omega))
+
+theorem shiftLeft_lt_two_pow {m k e : Nat} (h : m < 2 ^ e) : m <<< k < 2 ^ (e + k) := by
+  rw [Nat.shiftLeft_eq, Nat.pow_add]
+  exact Nat.mul_lt_mul_of_lt_of_le h (Nat.le_refl _) (Nat.two_pow_pos k)
+
+/-- One round of the reduction loop cancels the leading term. -/
+theorem xor_shift_lt {p m : Nat} (hp : p ≠ 0) (hm : m ≠ 0) (hle : m.log2 ≤ p.log2) :
+    p ^^^ (m <<< (p.log2 - m.log2)) < 2 ^ p.log2 := by
+  apply lt_two_pow_of_testBit_false
+  · apply Nat.xor_lt_two_pow Nat.lt_log2_self
+    have := shiftLeft_lt_two_pow (k := p.log2 - m.log2) (Nat.lt_log2_self (n := m))
+    have e : m.log2 + 1 + (p.log2 - m.log2) = p.log2 + 1 := by omega
+    rwa [e] at this
+  · rw [Nat.testBit_xor, Nat.testBit_log2 hp, Nat.testBit_shiftLeft]
+    have e : p.log2 - (p.log2 - m.log2) = m.log2 := by omega
+    simp [e, Nat.testBit_log2 hm]
+
+/-- The `UInt64` loop body agrees with the `Nat` computation (no overflow in the shift). -/
+theorem step_toNat {p m : UInt64} (hm : m ≠ 0) (h : degree p ≥ degree m) :
+    p.toNat ≠ 0 ∧ m.toNat.log2 ≤ p.toNat.log2 ∧
+    (p ^^^ (m <<< (degree p - degree m).toNat.toUInt64)).toNat
+      = p.toNat ^^^ (m.toNat <<< (p.toNat.log2 - m.toNat.log2)) := by
+  have hm' : m.toNat ≠ 0 := fun h' => hm ((toNat_eq_zero_iff m).mp h')
+  rw [degree_eq, degree_eq] at h ⊢
+  unfold pdeg at h ⊢
+  simp only [hm', if_false] at h ⊢
+  by_cases hp : p.toNat = 0
+  · simp [hp] at h; omega
+  · simp only [hp, if_false] at h ⊢
+    have hle : m.toNat.log2 ≤ p.toNat.log2 := by omega
+    have hp64 : p.toNat.log2 < 64 := (Nat.log2_lt hp).mpr (UInt64.toNat_lt p)
+    refine ⟨by simpa using hp, hle, ?_⟩
+    have e1 : ((p.toNat.log2 : Int) - (m.toNat.log2 : Int)).toNat = p.toNat.log2 - m.toNat.log2 := by
+      omega
+    rw [e1, UInt64.toNat_xor, UInt64.toNat_shiftLeft, Nat.toUInt64_eq, UInt64.toNat_ofNat']
+    have e2 : (p.toNat.log2 - m.toNat.log2) % 2 ^ 64 % 64 = p.toNat.log2 - m.toNat.log2 := by omega
+    rw [e2, Nat.mod_eq_of_lt]
+    have := shiftLeft_lt_two_pow (k := p.toNat.log2 - m.toNat.log2) (Nat.lt_log2_self (n := m.toNat))
+    have e : m.toNat.log2 + 1 + (p.toNat.log2 - m.toNat.log2) = p.toNat.log2 + 1 := by omega
+    rw [e] at this
+    exact Nat.lt_of_lt_of_le this (Nat.pow_le_pow_right (by omega) (by omega))
+
+theorem moduloLoop_spec {m : UInt64} (hm : m ≠ 0) : ∀ (f : Nat) (p : UInt64),
+    Cong m.toNat (moduloLoop m f p).toNat p.toNat ∧
+    (p.toNat < 2 ^ (m.toNat.log2 + f) → (moduloLoop m f p).toNat < 2 ^ m.toNat.log2) := by
+  have hm' : m.toNat ≠ 0 := fun h' => hm ((toNat_eq_zero_iff m).mp h')
+  intro f
+  induction f with
+  | zero => intro p; simp [moduloLoop, Cong.refl]
+  | succ f ih =>
+    intro p
+    rw [moduloLoop]
+    by_cases h : degree p ≥ degree m
+    · simp only [h, if_true]
+      obtain ⟨hp, hle, e⟩ := step_toNat hm h
+      obtain ⟨ih1, ih2⟩ := ih (p ^^^ (m <<< (degree p - degree m).toNat.toUInt64))
+      rw [e] at ih1 ih2
+      refine ⟨ih1.trans (Cong.xor_shift _ _ _), fun hlt => ih2 ?_⟩
+      have h1 := xor_shift_lt hp hm' hle
+      have h2 : p.toNat.log2 < m.toNat.log2 + (f + 1) := (Nat.log2_lt hp).mpr hlt
+      exact Nat.lt_of_lt_of_le h1 (Nat.pow_le_pow_right (by omega) (by omega))
+    · simp only [h, if_false]
+      refine ⟨Cong.refl _ _, fun _ => ?_⟩
+      rw [degree_eq, degree_eq] at h
+      have : pdeg p.toNat < (m.toNat.log2 : Int) := by
+        have : pdeg m.toNat = m.toNat.log2 := by simp [pdeg, hm']
+        omega
+      exact pdeg_lt_iff.mp this
+
+/-- `modulo p m` is congruent to `p` modulo `m` … -/
+theorem modulo_cong {m : UInt64} (hm : m ≠ 0) (p : UInt64) :
+    Cong m.toNat (modulo p m).toNat p.toNat := (moduloLoop_spec hm 64 p).1
+
+/-- … and reduced. -/
+theorem modulo_lt {m : UInt64} (hm : m ≠ 0) (p : UInt64) :
+    (modulo p m).toNat < 2 ^ m.toNat.log2 := by
+  apply (moduloLoop_spec hm 64 p).2
+  exact Nat.lt_of_lt_of_le (UInt64.toNat_lt p) (Nat.pow_le_pow_right (by omega) (by omega))
+
+/-- Characterisation: anything reduced and congruent to `p` *is* `modulo p m`. -/
+theorem modulo_unique {m : UInt64} (hm : m ≠ 0) (p : UInt64) {r : Nat}
+    (hc : Cong m.toNat r p.toNat) (hr : r < 2 ^ m.toNat.log2) : (modulo p m).toNat = r := by
+  have hm' : m.toNat ≠ 0 := fun h' => hm ((toNat_eq_zero_iff m).mp h')
+  exact Cong.eq_of_lt hm' ((modulo_cong hm p).trans hc.symm) (modulo_lt hm p) hr
+
+/-- **T2.** For `m ≠ 0`, `modulo p m` is THE remainder of `p` modulo `m` in GF(2)[x]:
+its degree is below that of `m`, `p = q·m + modulo p m` for some quotient `q`, and it is the only
+value with these two properties. -/
+theorem modulo_spec (p m : UInt64) (hm : m ≠ 0) :
+    degree (modulo p m) < degree m ∧
+    (∃ q : Nat, p.toNat = clmul q m.toNat ^^^ (modulo p m).toNat) ∧
+    (∀ (q r : Nat), p.toNat = clmul q m.toNat ^^^ r → pdeg r < degree m → r = (modulo p m).toNat) := by
+  have hm' : m.toNat ≠ 0 := fun h' => hm ((toNat_eq_zero_iff m).mp h')
+  have hdm : degree m = (m.toNat.log2 : Int) := by rw [degree_eq]; simp [pdeg, hm']
+  refine ⟨?_, ?_, ?_⟩
+  · rw [hdm, degree_eq, pdeg_lt_iff]; exact modulo_lt hm p
+  · obtain ⟨q, hq⟩ := modulo_cong hm p
+    refine ⟨q, ?_⟩
+    rw [← hq, Nat.xor_comm (modulo p m).toNat, Nat.xor_assoc, Nat.xor_self, Nat.xor_zero]
+  · intro q r hqr hr
+    rw [hdm, pdeg_lt_iff] at hr
+    refine (modulo_unique hm p ⟨q, ?_⟩ hr).symm
+    rw [hqr, Nat.xor_comm r, Nat.xor_assoc, Nat.xor_self, Nat.xor_zero]
+
 end Rustic.Rabin
